@@ -14,7 +14,7 @@ BUILTINS = {'len', 'ord', 'chr', 'int', 'float', 'str', 'callable', 'isinstance'
             'IndexError', 'ValueError', 'TypeError', 'KeyError'}
 SPEC_FORMS = {'old', 'forall', 'exists', 'implies', 'holds', 'fresh', 'iff', 'ite', 'kind_is',
               'same_str', 'allocated', 'unchanged', 'owned', 'chars_hold', 'numshape',
-              'has', 'at', 'mget', 'forall_keys', 'same', 'total_len', 'int_str'}
+              'has', 'at', 'mget', 'forall_keys', 'same', 'total_len', 'int_str', 'uf_real'}
 
 LIST_MUTATORS = {'append', 'pop', 'clear', 'insert', 'extend', 'sort', 'reverse', 'remove'}
 
@@ -736,6 +736,11 @@ class Exec(Engine):
             return FALSE
         if isinstance(a, (VRef, VList, VRec)) and type(a) is type(b):
             return a.t == b.t
+        if isinstance(a, VStr) and isinstance(b, VStr) and st.spec:
+            # specification only: "is the same string value" = the same view (array, offset, length)
+            xa, xo, xn = str_parts(a)
+            ya, yo, yn = str_parts(b)
+            return AND(xa == ya, xo == yo, xn == yn)
         if type(a) is not type(b):
             return FALSE
         raise Unsupported('`is` on %s' % a.kind, node)
